@@ -29,6 +29,7 @@ class Hostile(object):
         self.peer_settings = list(peer_settings)
         self.delivered = []                        # every chunk handed to receive_data
         self.observer = observer                   # callable(data, CallResult) invoked after every delivery
+        self.block_prefix = b''                    # prepended to every header block the peer helpers build (table size updates)
         if handshake:
             self.handshake(e_settings)
 
@@ -57,7 +58,7 @@ class Hostile(object):
         if sid is None:
             sid = self.peer_next
             self.peer_next += 2
-        r = self.send(wire.build_headers(sid, hb(headers or REQ), end_stream=end_stream, **kw))
+        r = self.send(wire.build_headers(sid, self.block_prefix + hb(headers or REQ), end_stream=end_stream, **kw))
         return sid, r
 
     def e_request(self, headers=None, end_stream=False, sid=None, **kw):
@@ -80,7 +81,7 @@ class Hostile(object):
         return sid
 
     def peer_headers(self, sid, headers, end_stream=False, **kw):
-        return self.send(wire.build_headers(sid, hb(headers), end_stream=end_stream, **kw))
+        return self.send(wire.build_headers(sid, self.block_prefix + hb(headers), end_stream=end_stream, **kw))
 
     def peer_data(self, sid, data=b'x', end_stream=False, pad=None):
         return self.send(wire.build_data(sid, data, end_stream=end_stream, pad=pad))
